@@ -47,6 +47,8 @@ namespace zwh
   unhex (std::string const &s)
   {
     std::string r;
+    if (s == "e")		// the empty string
+      return r;
     for (size_t i = 0; i + 1 < s.size (); i += 2)
       r += (char) std::stoi (s.substr (i, 2), nullptr, 16);
     return r;
